@@ -224,11 +224,78 @@ fn rand_knots(r: &mut Rng, k: usize) -> Vec<f64> {
     t
 }
 
+/// What `pickle.loads(pickle.dumps(x))` does with a pyo3 class: `cls.__new__(cls, *x.__getnewargs__())`, then
+/// `__setstate__(x.__getstate__())` on that object - through the `#[pymethods]` items themselves (cfg-guarded hooks).
+fn pickle_ev<T>(o: &mut Out, key: &str, ty: &str, obj: &T, proj: impl Fn(&T) -> Value, renew: impl Fn(&T) -> Result<T, String>,
+                state: impl Fn(&T, &mut T) -> Result<(), String>, eqf: impl Fn(&T, &T) -> bool) {
+    let res = guard(|| -> Result<T, String> {
+        let mut fresh = renew(obj).map_err(|e| format!("new:{}", e))?;
+        state(obj, &mut fresh).map_err(|e| format!("state:{}", e))?;
+        Ok(fresh)
+    });
+    let (oc, back) = match res {
+        Outcome::Ok(Ok(v)) => ("ok".to_string(), Some(v)),
+        Outcome::Ok(Err(e)) => (if e.starts_with("new:") { "new_err".to_string() } else { "load_err".to_string() }, None),
+        Outcome::Panic(_) => ("load_panic".to_string(), None),
+    };
+    let eq = back.as_ref().map(|b| guard(|| eqf(b, obj))).map(|g| matches!(g, Outcome::Ok(true)));
+    o.emit(&ev(format!("{}/{}/pickle", key, ty), ty, "pickle", oc, proj(obj), back.as_ref().map(|b| proj(b)), eq));
+}
+
 pub fn roundtrip(seed: u64, n: usize, out: &str) {
+    use rateslib::verif::{calendar_py as cpy, dual_py as dpy, rates_py as rpy};
     let mut o = Out::create(out);
     let mut r = Rng::new(seed ^ 0xC16);
+    // the small pickled types: every value of the enumerations, currencies, quotes
+    for i in 0..11u8 {
+        if let Ok(c) = cpy::convention_new(i) {
+            let res = guard(|| cpy::convention_pickle(&c));
+            let (oc, same) = match res { Outcome::Ok(Ok((_, back))) => ("ok", back == c), Outcome::Ok(Err(_)) => ("load_err", false), Outcome::Panic(_) => ("load_panic", false) };
+            o.emit(&ev(format!("rt/enum/Convention/{}", i), "Convention", "pickle", oc.into(), json!({"i": i}), Some(json!({"i": i})), Some(same)));
+        }
+    }
+    for i in 0..5u8 {
+        if let Ok(m) = cpy::modifier_new(i) {
+            let res = guard(|| cpy::modifier_pickle(&m));
+            let (oc, same) = match res { Outcome::Ok(Ok((_, back))) => ("ok", back == m), Outcome::Ok(Err(_)) => ("load_err", false), Outcome::Panic(_) => ("load_panic", false) };
+            o.emit(&ev(format!("rt/enum/Modifier/{}", i), "Modifier", "pickle", oc.into(), json!({"i": i, "s": cpy::modifier_str(m)}), Some(json!({"i": i, "s": cpy::modifier_str(m)})), Some(same)));
+        }
+    }
+    for nm in ["usd", "eur", "XAU", "Nok"] {
+        let c = rpy::ccy_new(nm).unwrap();
+        let res = guard(|| rpy::ccy_pickle(&c));
+        let (oc, after, same) = match res { Outcome::Ok(Ok((name, back, e))) => ("ok", Some(json!({"name": verif::ccy_name(&back), "getter": name})), e), Outcome::Ok(Err(_)) => ("load_err", None, false), Outcome::Panic(_) => ("load_panic", None, false) };
+        o.emit(&ev(format!("rt/ccy/{}", nm), "Ccy", "pickle", oc.into(), json!({"name": nm.to_lowercase(), "getter": nm.to_lowercase()}), after, Some(same)));
+    }
     for i in 0..n {
         let key = format!("rt/{}", i);
+        // pickle protocol of every class that has one
+        {
+            let d = rand_dual(&mut r);
+            pickle_ev(&mut o, &key, "Dual", &d, p_dual, |x| dpy::dual_newargs(x).and_then(|(a, b, c)| dpy::dual_new(a, b, c)), |x, on| dpy::dual_pickle(x, on), |a, b| a == b);
+            let d2 = rand_dual2(&mut r);
+            pickle_ev(&mut o, &key, "Dual2", &d2, p_dual2, |x| dpy::dual2_newargs(x).and_then(|(a, b, c, e)| dpy::dual2_new(a, b, c, e)), |x, on| dpy::dual2_pickle(x, on), |a, b| a == b);
+            let f = rand_fx(&mut r);
+            pickle_ev(&mut o, &key, "FXRates", &f, p_fx, rpy::renew, |x, on| rpy::state(x, on), |a, b| a == b);
+            // a quote on its own (settlement with a time of day and a fraction of a second)
+            let q = FXRate::try_new("eur", "usd", if r.coin() { Number::F64(rand_pos(&mut r)) } else { Number::Dual(rand_dual(&mut r)) },
+                                    match r.below(3) { 0 => None, 1 => Some(dn(r.range(10000, 30000))), _ => Some(dn(r.range(10000, 30000)) + chrono::Duration::nanoseconds(r.range(1, 86_399_999_999_999))) }).unwrap();
+            let pq = |q: &FXRate| { let (p, n_, a, st) = rpy::quote_view(q).unwrap(); use chrono::Timelike;
+                json!({"pair": p, "v": p_num(&n_), "ad": a, "settle": st.map(|d| nd(&d)).unwrap_or(0), "settle_s": st.map(|d| d.time().num_seconds_from_midnight() as i64).unwrap_or(-1), "settle_ns": st.map(|d| d.time().nanosecond() as i64).unwrap_or(-1)}) };
+            let res = guard(|| rpy::quote_pickle(&q));
+            let (oc, after, same) = match res { Outcome::Ok(Ok((_, back, e))) => ("ok", Some(pq(&back)), e), Outcome::Ok(Err(_)) => ("load_err", None, false), Outcome::Panic(_) => ("load_panic", None, false) };
+            o.emit(&ev(format!("{}/FXRate/pickle", key), "FXRate", "pickle", oc.into(), pq(&q), after, Some(same)));
+            let c = rand_curve(&mut r, i);
+            pickle_ev(&mut o, &key, "Curve", &c, p_curve, |x| x.renew(), |x, on| { *on = CurveH::setstate(&x.getstate())?; Ok(()) }, |a, b| a.equals(b));
+            if i % 3 == 0 {
+                let cal = rand_cal(&mut r);
+                pickle_ev(&mut o, &key, "Cal", &cal, p_cal, cpy::cal_renew, |x, on| cpy::cal_state(x, on), |a, b| a == b);
+                let u = UnionCal::new(vec![rand_cal(&mut r)], if r.coin() { None } else { Some(vec![rand_cal(&mut r)]) });
+                pickle_ev(&mut o, &key, "UnionCal", &u, p_union, cpy::union_renew, |x, on| cpy::union_state(x, on), |a, b| a == b);
+                let nc = NamedCal::try_new(*r.pick(&["tgt", "nyc,ldn|fed", "bus|all"])).unwrap();
+                pickle_ev(&mut o, &key, "NamedCal", &nc, p_named, cpy::named_renew, |x, on| cpy::named_state(x, on), |a, b| a == b);
+            }
+        }
         rt_type!(o, key, "Dual", rand_dual(&mut r), p_dual, Tagged::Dual, |t| if let Tagged::Dual(x) = t { Some(x) } else { None });
         rt_type!(o, key, "Dual2", rand_dual2(&mut r), p_dual2, Tagged::Dual2, |t| if let Tagged::Dual2(x) = t { Some(x) } else { None });
         if i % 3 == 0 {
